@@ -82,12 +82,12 @@ fn run_gadget(ctx: &mut Ctx) {
     }
     // foreign-curve back-end (big circuits)
     let n_foreign = match ctx.tier.as_str() {
-        "quick" => 1,
+        "quick" => 2,
         "thorough" => shapes.len(),
-        _ => 1,
+        _ => 2,
     };
     for (i, (fp, extra_k)) in shapes.iter().take(n_foreign).enumerate() {
-        gadget::run_foreign(ctx, &mut setup, fp, *extra_k, 700 + i as u64, 18, if ctx.quick() { 1 } else { 3 });
+        gadget::run_foreign(ctx, &mut setup, fp, *extra_k, 700 + i as u64, 18, if ctx.quick() { 2 } else { 4 });
     }
 }
 
@@ -127,14 +127,18 @@ fn main() {
     if only.as_deref().map_or(true, |o| o == "gadget") {
         run_gadget(&mut ctx);
     }
-    if only.as_deref().map_or(ctx.thorough(), |o| o == "agg") {
-        // LightAggregator through its public API: thorough tier only (minutes)
-        let nc = if ctx.thorough() { 3 } else { 1 };
+    if only.as_deref().map_or(true, |o| o == "agg") {
+        // LightAggregator through its public API, k = 1, 2, 3 inner proofs
+        let nc = if ctx.quick() { 1 } else { 4 };
+        // regression first: one inner proof (the Lagrange-basis slice kept by `init` was too short)
         aggregator::run::<1>(&mut ctx, false, 15, 901, nc);
-        aggregator::run::<1>(&mut ctx, true, 15, 904, nc);
-        aggregator::run::<2>(&mut ctx, true, 15, 905, nc);
         aggregator::run::<2>(&mut ctx, false, 15, 902, nc);
-        aggregator::run::<3>(&mut ctx, true, 15, 903, nc);
+        let sha3 = !ctx.quick();
+        aggregator::run::<3>(&mut ctx, sha3, 15, 903, nc);
+        if !ctx.quick() {
+            aggregator::run::<1>(&mut ctx, true, 15, 904, nc);
+            aggregator::run::<2>(&mut ctx, true, 15, 905, nc);
+        }
     }
     ctx.finish();
 }
